@@ -284,7 +284,8 @@ struct World {
     log: Vec<String>,
     next_tag: u32,
     resorted: [bool; 2],
-    mm_diverse: bool,
+    /// the internal EVPN list was seen out of MAC-mobility order (sticky)
+    mm_broken: bool,
     dead: bool,
 }
 
@@ -304,7 +305,7 @@ impl World {
             log: Vec::new(),
             next_tag: 1,
             resorted: [false, false],
-            mm_diverse: false,
+            mm_broken: false,
             dead: false,
         }
     }
@@ -492,10 +493,6 @@ fn apply(ctx: &mut Ctx, w: &mut World, op: &Op) -> Vec<(usize, NlriChange, &'sta
     if let Err(p) = r {
         report_panic(ctx, w, &p, op.kind());
     }
-    let mm: BTreeSet<Option<u32>> = w.paths.iter().filter(|p| p.fam == EVPN).map(|p| p.spec.mm).collect();
-    if mm.len() > 1 {
-        w.mm_diverse = true;
-    }
     out
 }
 
@@ -546,6 +543,11 @@ fn order_sig(w: &World, fam: usize, better: &MPath, above: &MPath) -> String {
     if (hb > 255 || ha > 255) && ((k == S_ASPATH && wa <= wb) || (k < S_ASPATH && ka[2] == kb[2] && wa < wb && ha >= hb)) {
         return "C02/order/as-path-hop-count-over-255".into();
     }
+    if fam == EVPN && w.resorted[EVPN] && w.mm_broken {
+        // restale/restale_llgr re-sorted the EVPN list and it has been seen out of MAC-mobility order since:
+        // nothing about the order of this list can be trusted any more
+        return "C02/order/evpn-mac-mobility-lost-after-restale".into();
+    }
     // `better` wins at the LLGR step but `above` wins the first differing step among
     // LOCAL_PREF .. GR-stale: the LLGR step was evaluated after that step
     if k == 1 {
@@ -561,10 +563,6 @@ fn order_sig(w: &World, fam: usize, better: &MPath, above: &MPath) -> String {
                 return format!("C02/order/llgr-stale-after-{}", STEPS[j]);
             }
         }
-    }
-    if fam == EVPN && w.resorted[EVPN] && w.mm_diverse {
-        // the EVPN list was re-sorted by restale/restale_llgr while MAC-mobility values differed
-        return "C02/order/evpn-mac-mobility-lost-after-restale".into();
     }
     match (k + 1..9).find(|&j| ka[j] < kb[j]) {
         Some(j) => format!("C02/order/{}-after-{}", STEPS[k], STEPS[j]),
@@ -789,6 +787,50 @@ fn check_state(ctx: &mut Ctx, w: &mut World, fam: usize, changes: &[(usize, Nlri
             ctx.rep.count("state:mixed-eligible-ineligible");
         }
     }
+    // 0. ListPath view (all paths incl. filtered) first: it is also the harness' own sanity check
+    //    and shows whether the internal EVPN list is still ordered by MAC mobility
+    let t = &w.t;
+    let g = match guard(|| {
+        t.destinations(TableQuery::Global, family(fam), vec![], true)
+            .filter(|d| d.net == net(fam))
+            .flat_map(|d| d.paths.into_iter().map(|p| (tag_of(&p.attr), p.filtered, p.stale, p.source.is_stale(), p.source.is_llgr_stale())))
+            .collect::<Vec<_>>()
+    }) {
+        Ok(v) => v,
+        Err(p) => {
+            report_panic(ctx, w, &p, "destinations");
+            return None;
+        }
+    };
+    let mut got: Vec<u32> = g.iter().filter_map(|x| x.0).collect();
+    got.sort();
+    let mut want: Vec<u32> = w.fam_paths(fam).iter().map(|p| p.tag).collect();
+    want.sort();
+    let mut model_ok = got == want && got.len() == g.len();
+    if model_ok {
+        for (tag, filtered, stale, s_gr, s_llgr) in &g {
+            let p = w.paths.iter().find(|p| p.fam == fam && Some(p.tag) == *tag).unwrap();
+            if p.filtered != *filtered || p.sess.gr.get() != *stale || p.sess.gr.get() != *s_gr || p.sess.llgr.get() != *s_llgr {
+                model_ok = false;
+            }
+        }
+    }
+    if !model_ok {
+        // the harness model and the table disagree about *which* paths exist or their
+        // marks: not a C02 judgement (C06/C10/C15 territory) -- stop judging this history
+        ctx.rep.count("model-mismatch");
+        ctx.rep.inconclusive(&format!("model/table path-set mismatch after `{}`", w.log.last().cloned().unwrap_or_default()));
+        eprintln!("[C02] model mismatch: got {:?} want {:?}\n  ops: {:#?}", g, want, w.log);
+        w.dead = true;
+        return None;
+    }
+    if fam == EVPN {
+        let mms: Vec<u32> = g.iter().filter_map(|x| x.0).filter_map(|t| w.paths.iter().find(|p| p.fam == fam && p.tag == t)).map(|p| p.spec.mm.unwrap_or(0)).collect();
+        if mms.windows(2).any(|x| x[0] < x[1]) {
+            w.mm_broken = true;
+            ctx.rep.count("state:evpn-list-not-in-mac-mobility-order");
+        }
+    }
     // 1. the change(s) the op itself returned
     for (f, c, what) in changes {
         if *f != fam || c.net != net(fam) {
@@ -850,42 +892,7 @@ fn check_state(ctx: &mut Ctx, w: &mut World, fam: usize, changes: &[(usize, Nlri
         }
         judge_list(ctx, w, fam, "loc-rib-top-n", &tags, Some(n));
     }
-    // 4. ListPath view (all paths incl. filtered), also the harness' own sanity check
-    let t = &w.t;
-    let g = match guard(|| {
-        t.destinations(TableQuery::Global, family(fam), vec![], true)
-            .filter(|d| d.net == net(fam))
-            .flat_map(|d| d.paths.into_iter().map(|p| (tag_of(&p.attr), p.filtered, p.stale, p.source.is_stale(), p.source.is_llgr_stale())))
-            .collect::<Vec<_>>()
-    }) {
-        Ok(v) => v,
-        Err(p) => {
-            report_panic(ctx, w, &p, "destinations");
-            return None;
-        }
-    };
-    let mut got: Vec<u32> = g.iter().filter_map(|x| x.0).collect();
-    got.sort();
-    let mut want: Vec<u32> = w.fam_paths(fam).iter().map(|p| p.tag).collect();
-    want.sort();
-    let mut model_ok = got == want && got.len() == g.len();
-    if model_ok {
-        for (tag, filtered, stale, s_gr, s_llgr) in &g {
-            let p = w.paths.iter().find(|p| p.fam == fam && Some(p.tag) == *tag).unwrap();
-            if p.filtered != *filtered || p.sess.gr.get() != *stale || p.sess.gr.get() != *s_gr || p.sess.llgr.get() != *s_llgr {
-                model_ok = false;
-            }
-        }
-    }
-    if !model_ok {
-        // the harness model and the table disagree about *which* paths exist or their
-        // marks: not a C02 judgement (C06/C10/C15 territory) -- stop judging this history
-        ctx.rep.count("model-mismatch");
-        ctx.rep.inconclusive(&format!("model/table path-set mismatch after `{}`", w.log.last().cloned().unwrap_or_default()));
-        eprintln!("[C02] model mismatch: got {:?} want {:?}\n  ops: {:#?}", g, want, w.log);
-        w.dead = true;
-        return None;
-    }
+    // 4. order of the eligible paths in the ListPath view
     let elig_seq: Vec<u32> = g.iter().filter_map(|x| x.0).filter(|t| w.paths.iter().any(|p| p.fam == fam && p.tag == *t && p.eligible())).collect();
     judge_list(ctx, w, fam, "list-path", &elig_seq, None);
     if w.paths.iter().any(|p| p.fam == fam && p.nh_invalid && !p.filtered) {
@@ -1233,8 +1240,12 @@ fn history_free(ctx: &mut Ctx, case: &Case, evpn_resorted: bool, bests: &[(Vec<u
                 _ => "no-best".to_string(),
             };
             ctx.rep.count("violated:history-free");
+            let over255 = |k: &Option<[i64; 9]>| k.is_some_and(|k| k[S_ASPATH] > 255);
             let sig = if case.fam == EVPN && evpn_resorted {
                 "C02/history-free/evpn-mac-mobility-lost-after-restale".to_string()
+            } else if step == "as-path" && (over255(&first.2) || over255(&b.2)) {
+                // a hop count that wraps to the other one's value ties with it, so arrival order decides
+                "C02/history-free/as-path-hop-count-over-255".to_string()
             } else {
                 format!("C02/history-free/{}", step)
             };
@@ -1286,7 +1297,7 @@ fn run_perms(ctx: &mut Ctx, rng: &mut Rng, sets: u64) {
             ctx.rep.count("perm:orders");
             match run_case(ctx, &case, &o, early, false) {
                 Some((b, w)) => {
-                    evpn_resorted |= w.resorted[EVPN] && w.mm_diverse;
+                    evpn_resorted |= w.resorted[EVPN] && w.mm_broken;
                     bests.push((o, early, b, w.log))
                 }
                 None => break,
